@@ -499,4 +499,60 @@ def runCallsEqF (P : Program) (fr : Frame) (lazy : Bool) (objs : List (List Stri
       (if lazy then .gen fr.rows false else .list fr.rows) (fun _ => ObjState.empty) calls)).map fun co =>
     render P (objs.getD co.1.1 []) co.1.2 co.2
 
+/-! ### sessions: the caller keeps, and may edit, the list of key columns it handed to `group_by`
+
+A `GroupBy` object is evaluated lazily: `_map` reads `self._columns` when a call is made
+(group_by.py:88-91), not when the object is created.  Whether `__init__` stored a new object
+(`tuple(columns)`, `[columns]`) or the caller's own list decides what a call sees after the caller
+edited that list in place. -/
+
+/-- An event of a session on one frame: the caller edits, in place, the list object it handed to
+`df.group_by(…)` when object `g` was created (`ks` is its content afterwards), or calls object `g`. -/
+inductive Ev where
+  | edit (g : Nat) (ks : List String)
+  | call (g : Nat) (op : Op)
+  deriving Repr
+
+/-- The calls of a session, in order. -/
+def callsOf : List Ev → List (Nat × Op)
+  | [] => []
+  | .edit _ _ :: rest => callsOf rest
+  | .call g op :: rest => (g, op) :: callsOf rest
+
+/-- `self._columns` of object `g` as a call reads it: the names given at creation (`objs[g]`) when
+`__init__` stored a new object, the present content of the caller's list (`cur g`) when it stored the
+list itself. -/
+def keyColsAt (copied : Bool) (objs : List (List String)) (cur : Nat → List String) (g : Nat) : List String :=
+  if copied then objs.getD g [] else cur g
+
+/-- A session: `src` the frame's backing store, `sts` the state of the objects, `cur` the present content
+of the caller's argument objects.  A call resolves the positions of `self._columns` as it is then
+(`array.array("i", (source_columns.index(target) for target in self._columns))` raises `ValueError` for a
+name that is not a column, before any row is read). -/
+def runSessionC (P : Program) (copied : Bool) (fr : Frame) (objs : List (List String)) :
+    Source (List PyVal) → (Nat → ObjState (List PyVal) (List PyVal)) → (Nat → List String) → List Ev →
+      List (Except String (List String × List (List PyVal)))
+  | _, _, _, [] => []
+  | src, sts, cur, .edit g ks :: rest =>
+    runSessionC P copied fr objs src sts (fun j => if j = g then ks else cur j) rest
+  | src, sts, cur, .call g op :: rest =>
+    match (keyColsAt copied objs cur g).mapM (fun n => index n fr.columns) with
+    | none => .error "ValueError" :: runSessionC P copied fr objs src sts cur rest
+    | some idx =>
+      render P (keyColsAt copied objs cur g) op
+          (stepC P (identOf pyHashKey P.key) (keyAt idx) (cellOfC P.value P.colIndex fr.columns)
+            (iterate P src).1 (sts (slot P g)) op).2 ::
+        runSessionC P copied fr objs (iterate P src).2
+          (fun j => if j = slot P g then
+              (stepC P (identOf pyHashKey P.key) (keyAt idx) (cellOfC P.value P.colIndex fr.columns)
+                (iterate P src).1 (sts (slot P g)) op).1
+            else sts j) cur rest
+
+/-- A session on the objects `df.group_by(objs[g])` of one frame, lazily backed or materialised; every
+argument object holds, to begin with, the names it was created with. -/
+def runSessionF (P : Program) (copied : Bool) (fr : Frame) (lazy : Bool) (objs : List (List String))
+    (evs : List Ev) : List (Except String (List String × List (List PyVal))) :=
+  runSessionC P copied fr objs (if lazy then .gen fr.rows false else .list fr.rows) (fun _ => ObjState.empty)
+    (fun g => objs.getD g []) evs
+
 end GroupByCode
